@@ -594,6 +594,17 @@ def own_writeback(ctx: Ctx) -> RuleResult:
         loop = [x for x in iter_own_nodes(f.node) if isinstance(x, ast.For) and any(n is y for y in ast.walk(x))]
         okl = len(loop) == 1 and norm_src(loop[0].iter).endswith(".items()")
         r.ob(okl, {"iterates": norm_src(loop[0].iter) if loop else None})
+        # every execution reaches the write-back: no return between the scheduler run and the loop
+        if loop and loop[0] in f.node.body:
+            before = f.node.body[:f.node.body.index(loop[0])]
+            early = [x for st in before for x in own_walk(st) if isinstance(x, ast.Return)]
+            r.ob(not early, {"in": f.short, "write-back reached by every execution": not early})
+            if early:
+                st = next(st for st in before if any(x is early[0] for x in own_walk(st)))
+                r.violate(f"{f.short}: the function returns before the setup write-back ({norm_src(st.test)[:70] if isinstance(st, ast.If) else 'early return'})",
+                          f.loc(early[0]), "setup results computed by this execution are not remembered: those setup nodes run again in every "
+                          "later call (after a partial setup(target_nodes=..) the rest of the setup nodes are re-entered per call)",
+                          norm_src(st)[:120])
     # any other write to a DAG's results in the DAG classes (outside the splice / build paths) is a violation of the licence
     o = own(ctx)
     for f in o.reachable():
